@@ -154,7 +154,13 @@ def plain_section_lines(rng, flavour, idx, ending, same):
         while lines and lines[-1][0] != ending:
             lines.pop()
         h.lines = lines or [(ending, gen.rand_text(rng, 30, allow_empty=False))]
-    return gen.Diff([s], fmt=flavour).lines()
+    out = gen.Diff([s], fmt=flavour).lines()
+    if rng.random() < 0.3:
+        # empty context lines that lost their blank (GNU diff --suppress-blank-empty, or an editor stripping trailing blanks)
+        for hh in s.hunks:
+            hh.lines = [(k, '' if k == ' ' and rng.random() < 0.6 else t) for k, t in hh.lines]
+        out = [('' if l == ' ' else l) for l in gen.Diff([s], fmt=flavour).lines()]
+    return out
 
 
 def EXHAUSTIVE(ctx):
